@@ -161,17 +161,20 @@ impl Read for WatchClose {
 
             let err_mask = Events::EPOLLRDHUP | Events::EPOLLHUP | Events::EPOLLERR;
 
+            // the watched descriptor went away: stop
             for ev in v.iter().take(r) {
-                if err_mask.bits() & ev.events != 0 {
+                if ev.data != 0 && err_mask.bits() & ev.events != 0 {
                     return Err(io::Error::from(io::ErrorKind::BrokenPipe));
                 }
             }
 
+            // our own descriptor is readable or hung up: read() delivers what is still
+            // pending first and 0 at the end of the stream
             for ev in v.iter().take(r) {
                 if ev.data != 0 {
                     continue;
                 }
-                if Events::EPOLLIN.bits() & ev.events != 0 {
+                if (Events::EPOLLIN.bits() | err_mask.bits()) & ev.events != 0 {
                     break 'outer;
                 }
             }
